@@ -206,6 +206,8 @@ class Models:
             if f is None:
                 if ext.get('intrinsic'):
                     f = self.exact.get('intrinsic:' + ext['intrinsic'])
+                if f is None and ext.get('reason') == 'nobody':
+                    f = self.ctor_model(ext)
                 if f is None:
                     self.missing[ext['dname']] = ext['name']
                     raise Unsupported('no model for external %s  [%s]' % (ext['name'], ext['dname']))
@@ -214,6 +216,24 @@ class Models:
 
     def thread_local_ref(self, I, item):
         raise Unsupported('ThreadLocalRef')
+
+    def ctor_model(self, ext):
+        """a tuple-variant / tuple-struct constructor used as a function (`.map(Some)`, `ControlFlow::Break`)"""
+        dn = norm(ext['dname'])
+        if '::' not in dn:
+            return None
+        parent, last = dn.rsplit('::', 1)
+        want = [a['ty'] for a in ext['args'] if 'ty' in a]
+        for t in self.p.tys.values():
+            if t.get('kind') != 'adt' or t.get('targs') != want:
+                continue
+            if t.get('name') == parent and t['adt'] == 'enum':
+                for vi, v in enumerate(t['variants']):
+                    if v['name'] == last:
+                        return lambda I, ext, a, vi=vi: Enum(vi, list(a))
+            if t.get('name') == dn and t['adt'] == 'struct':
+                return lambda I, ext, a: Agg(list(a))
+        return None
 
 
 _NORM = re.compile(r'(?<![A-Za-z0-9_:])(core|alloc)::')
@@ -475,6 +495,46 @@ def register_all(M):
     def box_new(I, ext, a):
         et = targ(ext)
         return make_box(I, box_ty_of(et), Ptr(Cell(a[0], 'box'), 0))
+
+    def uninit_of(tid):
+        """an uninitialised value of the type with its aggregate structure in place (so that fields can be written)"""
+        t = P.tys[tid]
+        if t['kind'] == 'adt' and t['adt'] in ('struct', 'union') and t.get('name', '').startswith('std::mem::'):
+            return Agg([uninit_of(f['ty']) for f in t['variants'][0]['fields']])
+        if t['kind'] == 'tuple':
+            return Agg([uninit_of(f) for f in t['fields']])
+        return UNINIT
+    M.uninit_of = uninit_of
+
+    @reg('std::boxed::Box::<T>::new_uninit')
+    def box_new_uninit(I, ext, a):
+        et = targ(ext)
+        mu = P.ty_by_str.get('std::mem::MaybeUninit<%s>' % P.tys[et]['str'])
+        if mu is None:
+            raise Unsupported('no MaybeUninit<%s> in dump' % P.tys[et]['str'])
+        return make_box(I, box_ty_of(mu), Ptr(Cell(uninit_of(mu), 'box'), 0))
+
+    @reg('std::boxed::box_assume_init_into_vec_unsafe')
+    def box_into_vec(I, ext, a):
+        p = I.box_ptr(a[0])
+        v = p.c.f[p.i]
+        et = targs_of(ext)[0]
+        n = int(re.search(r', (\d+)>$', ext['name']).group(1))
+        tid = P.ty_by_str.get('std::mem::MaybeUninit<[%s; %d]>' % (P.tys[et]['str'], n))
+        if tid is None:
+            raise Unsupported('no MaybeUninit array type for %s' % ext['name'])
+        # MaybeUninit { uninit, value } -> ManuallyDrop -> MaybeDangling -> [T; N]: always the last field
+        t = P.tys[tid]
+        while t['kind'] == 'adt':
+            fs = t['variants'][0]['fields']
+            v = v.f[len(fs) - 1]
+            t = P.tys[fs[-1]['ty']]
+        if t['kind'] != 'array' or type(v) is not Agg:
+            raise Unsupported('vec! box content %r' % (v,))
+        return VecObj(et, list(v.f))
+
+    def targs_of(ext):
+        return [x['ty'] for x in ext['args'] if 'ty' in x]
 
     @reg('std::boxed::Box::<T>::pin')
     def box_pin(I, ext, a):
@@ -1232,6 +1292,17 @@ def register_batch2(M):
             if P.tys[it]['kind'] == 'dyn':
                 raise Unsupported('eq on Arc<dyn>')
             return val_eq(I, it, a.inner.f[0], b.inner.f[0])
+        if type(a) is VecObj and type(b) is VecObj:
+            if len(a.f) != len(b.f):
+                return False
+            for x, y in zip(a.f, b.f):
+                if not val_eq(I, a.et, x, y):
+                    return False
+            return True
+        if k == 'array' or k == 'slice':
+            if len(a.f) != len(b.f):
+                return False
+            return all(val_eq(I, t['elem'], x, y) for x, y in zip(a.f, b.f))
         if k == 'adt' or k == 'tuple':
             iid = find_inst('<%s as std::cmp::PartialEq>::eq' % t['str'])
             if iid is not None:
@@ -1615,10 +1686,40 @@ def register_batch2(M):
         return m
 
     def drain_iter(I, it, it_ty):
-        if type(it) is IterObj and it.mode == 'val':
+        """all remaining items of an `impl IntoIterator` value (consumed)"""
+        ti = type(it)
+        if ti is IterObj and it.mode == 'val':
             items = list(it.c.f[it.pos:])
             it.c.f = []
             return items
+        if ti is VecObj:
+            items = it.f
+            it.f = []
+            return items
+        if ti is ListIter:
+            items = it.items
+            it.items = []
+            return items
+        if ti is MapObj:
+            order = M.iteration_order(I, len(it.kc.f))
+            items = [it.kc.f[j] if it.is_set else Agg([it.kc.f[j], it.f[j]]) for j in order]
+            it.kc.f = []
+            it.f = []
+            return items
+        tk = P.tys[it_ty]
+        if ti is Agg and tk['kind'] == 'array':
+            return list(it.f)
+        if ti is Enum and tk.get('name') == 'std::option::Option':
+            return [it.f[0]] if it.v == 1 else []
+        if ti is Ptr and tk['kind'] == 'ref':
+            tgt = it.c.f[it.i] if it.meta is None else None
+            if it.meta is not None and not isinstance(it.meta, Dyn):
+                return [Ptr(it.c, it.i + j) for j in range(it.meta)]
+            if type(tgt) is VecObj:
+                return [Ptr(tgt, j) for j in range(len(tgt.f))]
+            if type(tgt) is MapObj:
+                order = M.iteration_order(I, len(tgt.kc.f))
+                return [Ptr(tgt.kc, j) if tgt.is_set else Agg([Ptr(tgt.kc, j), Ptr(tgt, j)]) for j in order]
         nxt = M.find_method(I, it_ty, 'std::iter::Iterator>::next')
         cell = Cell(it)
         out = []
@@ -1697,7 +1798,7 @@ def register_batch2(M):
     M.default_value = default_value
 
     # ------------------------------------------------------------------ String / str
-    @reg('<std::string::String as std::convert::From<&str>>::from', '<str as std::string::ToString>::to_string', 'std::str::<impl str>::to_owned',
+    @reg('<std::string::String as std::convert::From<&str>>::from', '<str as std::string::ToString>::to_string', 'std::str::<impl str>::to_owned', 'std::str::<impl std::borrow::ToOwned for str>::to_owned',
          '<str as std::borrow::ToOwned>::to_owned', 'core::str::<impl str>::to_string', '<std::string::String as std::convert::From<&std::string::String>>::from')
     def string_from_str(I, ext, a):
         v = a[0]
@@ -1759,7 +1860,7 @@ def register_batch2(M):
     @reg('<T as std::string::ToString>::to_string')
     def to_string(I, ext, a):
         t = P.tys[targs(ext)[0]]
-        v = deref_to_value(a[0])
+        v = a[0] if type(a[0]) is StrRef else deref_to_value(a[0])
         if t['kind'] == 'str' or type(v) is StrRef:
             return StringObj(v.s if type(v) is StrRef else a[0].s)
         if type(v) is StringObj:
@@ -2055,9 +2156,6 @@ def register_batch2(M):
     def thread_sleep(I, ext, a):
         raise Unsupported('real thread::sleep reached (virtual clock not armed?)')
 
-    @reg('std::time::Duration::from_nanos', 'std::time::Duration::from_millis')
-    def duration_from(I, ext, a):
-        return OpaqueObj('duration', a[0])
 
     @reg_re(r'^time::offset_date_time::OffsetDateTime::(now_utc|from_unix_timestamp_nanos|from_unix_timestamp)$')
     def odt_new(I, ext, a):
@@ -2085,7 +2183,7 @@ def register_batch2(M):
             if x.frac == 0:
                 return x
             x = I.symf_concretize(x)
-        return float(math.ceil(x)) if math.isfinite(x) else x
+        return math.copysign(float(math.ceil(x)), x) if math.isfinite(x) else x
 
     @reg('intrinsic:floorf64')
     def floorf64(I, ext, a):
@@ -2095,14 +2193,16 @@ def register_batch2(M):
             if x.frac == 0:
                 return x
             x = I.symf_concretize(x)
-        return float(math.floor(x)) if math.isfinite(x) else x
+        return math.copysign(float(math.floor(x)), x) if math.isfinite(x) and math.floor(x) == 0 else (float(math.floor(x)) if math.isfinite(x) else x)
 
     @reg('intrinsic:roundf64')
     def roundf64(I, ext, a):
         x = a[0]
         if not math.isfinite(x):
             return x
-        return float(math.floor(abs(x) + 0.5)) * (1 if x >= 0 else -1)
+        ax = abs(x)
+        fl_ = math.floor(ax)
+        return math.copysign(float(fl_ + 1 if ax - fl_ >= 0.5 else fl_), x)
 
     @reg('std::ptr::null_mut', 'std::ptr::null')
     def ptr_null(I, ext, a):
@@ -2305,7 +2405,9 @@ def register_batch3(M):
             x = I.symf_concretize(x)
         if not math.isfinite(x):
             return x
-        return math.copysign(float(math.floor(abs(x) + 0.5)), x)
+        ax = abs(x)
+        fl_ = math.floor(ax)
+        return math.copysign(float(fl_ + 1 if ax - fl_ >= 0.5 else fl_), x)
 
 
 _old2_register_all = register_all
@@ -2536,13 +2638,47 @@ def register_batch6(M):
             return True
         return NONE()
 
-    @M.reg_re(r"^<std::slice::Iter(Mut)?<'a, T> as std::iter::(Iterator>::size_hint|ExactSizeIterator>::len)$")
+    @M.reg_re(r"^<std::slice::Iter(Mut)?<'(a|_), T> as std::iter::(Iterator>::size_hint|ExactSizeIterator>::len)$")
     def slice_iter_len(I, ext, a):
         it = deref_to_value(a[0])
         n = it.end - it.pos
         if ext['dname'].endswith('size_hint'):
             return Agg([n, some(n)])
         return n
+
+    @M.reg_re(r"^<std::slice::Iter(Mut)?<'a, T> as std::iter::DoubleEndedIterator>::nth_back$")
+    def slice_iter_nth_back(I, ext, a):
+        it = deref_to_value(a[0])
+        n = a[1]
+        if is_sym(n):
+            n = I.ctx.concretize(n)
+        if it.end - it.pos <= n:
+            it.end = it.pos
+            return NONE()
+        it.end -= n + 1
+        return some(Ptr(it.c, it.end))
+
+    @M.reg_re(r"^<std::slice::Iter(Mut)?<'a, T> as std::iter::Iterator>::__iterator_get_unchecked$")
+    def slice_iter_get_unchecked(I, ext, a):
+        it = deref_to_value(a[0])
+        idx = a[1]
+        if is_sym(idx):
+            idx = I.ctx.concretize(idx)
+        return Ptr(it.c, it.pos + idx)
+
+    @M.reg_re(r"^<std::slice::Iter(Mut)?<'a, T> as std::iter::(Iterator>::advance_by|DoubleEndedIterator>::advance_back_by)$")
+    def slice_iter_advance_by(I, ext, a):
+        it = deref_to_value(a[0])
+        n = a[1]
+        if is_sym(n):
+            n = I.ctx.concretize(n)
+        k = min(n, it.end - it.pos)
+        if ext['dname'].endswith('advance_by'):
+            it.pos += k
+        else:
+            it.end -= k
+        # Result<(), NonZero<usize>>
+        return ok(Agg([])) if k == n else err(n - k)
 
     @M.reg_re(r"^<std::slice::Iter(Mut)?<'a, T> as std::iter::DoubleEndedIterator>::next_back$")
     def slice_iter_next_back(I, ext, a):
@@ -2675,3 +2811,1163 @@ _old5_register_all = register_all
 def register_all(M):  # noqa: F811
     _old5_register_all(M)
     register_batch6(M)
+
+
+# ----------------------------------------------------------------------------- batch 7
+class ListIter:
+    """an iterator whose remaining items were computed when it was created (set operations, drains, chunks, …)"""
+    __slots__ = ('items', 'owned_ty')
+
+    def __init__(self, items, owned_ty=None):
+        self.items = items
+        self.owned_ty = owned_ty      # element type when the iterator owns its items (drains)
+
+
+def register_batch7(M):
+    """wider coverage of the std API a library change may plausibly reach: Vec / slice / HashMap / HashSet methods,
+    atomics, locks, Arc, Cell, String, Duration, float intrinsics. Exercised by harness/src/stdx.rs."""
+    P = M.p
+    reg = M.reg
+    reg_re = M.reg_re
+    call_callable = M.call_callable
+    from .core import SymF
+
+    def targs(ext):
+        return [a['ty'] for a in ext['args'] if 'ty' in a]
+
+    def conc(I, v):
+        return I.ctx.concretize(v) if is_sym(v) else v
+
+    def truth(I, v):
+        return I.ctx.branch(v) if is_sym(v) else bool(v)
+
+    def vec_of(a0):
+        v = deref_to_value(a0)
+        if type(v) is not VecObj:
+            raise Unsupported('Vec method on %r' % (v,))
+        return v
+
+    # ------------------------------------------------------------------ list iterators
+    LIST_ITERS = (r"std::collections::hash_set::(Union|Intersection|Difference|SymmetricDifference|Drain)<.*>|"
+                  r"std::collections::hash_map::Drain<.*>|std::slice::(Chunks|Windows|ChunksExact)<'a, T>|std::vec::Drain<'_, T, A>|std::vec::Drain<'a, T, A>|"
+                  r"std::str::(Bytes|Chars)<'.*>")
+
+    @reg_re(r"^<(" + LIST_ITERS + r") as std::iter::Iterator>::next$")
+    def list_iter_next(I, ext, a):
+        it = deref_to_value(a[0])
+        if not it.items:
+            return NONE()
+        return some(it.items.pop(0))
+
+    @reg_re(r"^<(" + LIST_ITERS + r") as std::iter::DoubleEndedIterator>::next_back$")
+    def list_iter_next_back(I, ext, a):
+        it = deref_to_value(a[0])
+        if not it.items:
+            return NONE()
+        return some(it.items.pop())
+
+    @reg_re(r"^<(" + LIST_ITERS + r") as std::iter::(Iterator>::size_hint|ExactSizeIterator>::len|Iterator>::count)$")
+    def list_iter_len(I, ext, a):
+        it = deref_to_value(a[0]) if type(a[0]) is Ptr else a[0]
+        n = len(it.items)
+        if ext['dname'].endswith('size_hint'):
+            return Agg([n, some(n)])
+        if ext['dname'].endswith('count'):
+            it.items = []
+        return n
+
+    def drop_list_iter(I, ext, a):
+        it = deref_to_value(a[0])
+        if type(it) is ListIter and it.owned_ty is not None:
+            for x in it.items:
+                I.drop_value_at(Cell(x), 0, it.owned_ty)
+            it.items = []
+        return UNIT()
+    for nm in ('std::vec::Drain', 'std::collections::hash_map::Drain', 'std::collections::hash_set::Drain', 'std::collections::hash_set::Union',
+               'std::collections::hash_set::Intersection', 'std::collections::hash_set::Difference', 'std::collections::hash_set::SymmetricDifference',
+               'std::slice::Chunks', 'std::slice::Windows', 'std::str::Bytes', 'std::str::Chars'):
+        M.drops[nm] = drop_list_iter
+
+    # ------------------------------------------------------------------ Vec
+    @reg('std::vec::Vec::<T, A>::retain', 'std::vec::Vec::<T, A>::retain_mut')
+    def vec_retain(I, ext, a):
+        v = vec_of(a[0])
+        ftid = targs(ext)[-1]
+        keep = []
+        j = 0
+        items = v.f
+        n = len(items)
+        # the predicate sees the element in place
+        for j in range(n):
+            if truth(I, call_callable(I, ftid, a[1], [Ptr(v, j)])):
+                keep.append(j)
+        kept = set(keep)
+        for j in range(n):
+            if j not in kept:
+                I.drop_value_at(v, j, v.et)
+        v.f = [items[j] for j in keep]
+        return UNIT()
+
+    @reg('std::vec::Vec::<T, A>::swap_remove')
+    def vec_swap_remove(I, ext, a):
+        v = vec_of(a[0])
+        idx = conc(I, a[1])
+        if idx >= len(v.f):
+            raise RustPanic('swap_remove index (is %d) should be < len (is %d)' % (idx, len(v.f)), 'bounds')
+        x = v.f[idx]
+        last = v.f.pop()
+        if idx < len(v.f):
+            v.f[idx] = last
+        return x
+
+    @reg('std::vec::Vec::<T, A>::dedup')
+    def vec_dedup(I, ext, a):
+        v = vec_of(a[0])
+        out = []
+        for j, x in enumerate(v.f):
+            if out and M.val_eq(I, v.et, out[-1], x):
+                I.drop_value_at(v, j, v.et)
+            else:
+                out.append(x)
+        v.f = out
+        return UNIT()
+
+    def range_bounds(I, rng, ext, n):
+        rt = P.tys[[x['ty'] for x in ext['args'] if 'ty' in x][-1]]
+        name = rt.get('name', '')
+        f = rng.f
+        if name.endswith('ops::Range'):
+            lo, hi = f[0], f[1]
+        elif name.endswith('RangeFrom'):
+            lo, hi = f[0], n
+        elif name.endswith('RangeTo'):
+            lo, hi = 0, f[0]
+        elif name.endswith('RangeFull'):
+            lo, hi = 0, n
+        elif name.endswith('RangeInclusive'):
+            lo, hi = f[0], f[1] + 1
+        else:
+            raise Unsupported('range of type %s' % rt['str'])
+        lo, hi = conc(I, lo), conc(I, hi)
+        if lo > hi or hi > n:
+            raise RustPanic('range %d..%d out of bounds for length %d' % (lo, hi, n), 'bounds')
+        return lo, hi
+
+    @reg('std::vec::Vec::<T, A>::drain')
+    def vec_drain(I, ext, a):
+        v = vec_of(a[0])
+        lo, hi = range_bounds(I, a[1], ext, len(v.f))
+        items = v.f[lo:hi]
+        del v.f[lo:hi]
+        return ListIter(items, v.et)
+
+    @reg('std::vec::Vec::<T, A>::extend_from_slice')
+    def vec_extend_from_slice(I, ext, a):
+        v = vec_of(a[0])
+        s = a[1]
+        clone = M.clone_fn(I, v.et)
+        for j in range(s.meta):
+            v.f.append(clone(Ptr(s.c, s.i + j)))
+        return UNIT()
+
+    @reg('std::vec::Vec::<T, A>::resize')
+    def vec_resize(I, ext, a):
+        v = vec_of(a[0])
+        n = conc(I, a[1])
+        cell = Cell(a[2])
+        clone = M.clone_fn(I, v.et)
+        while len(v.f) > n:
+            I.drop_value_at(v, len(v.f) - 1, v.et)
+            v.f.pop()
+        while len(v.f) < n:
+            v.f.append(clone(Ptr(cell, 0)))
+        I.drop_value_at(cell, 0, v.et)
+        return UNIT()
+
+    @reg('<std::vec::Vec<T, A> as std::iter::Extend<T>>::extend', "<std::vec::Vec<T, A> as std::iter::Extend<&'a T>>::extend")
+    def vec_extend(I, ext, a):
+        v = vec_of(a[0])
+        ts = targs(ext)
+        items = M.drain_iter(I, a[1], ts[-1])
+        byref = "Extend<&'a T>" in ext['dname']
+        for x in items:
+            v.f.append(copy_val(x.c.f[x.i]) if byref else x)
+        return UNIT()
+
+    @reg("<std::vec::Vec<T, A> as std::iter::Extend<&'a T>>::extend_one", '<std::vec::Vec<T, A> as std::iter::Extend<T>>::extend_one')
+    def vec_extend_one(I, ext, a):
+        v = vec_of(a[0])
+        x = a[1]
+        v.f.append(copy_val(x.c.f[x.i]) if "Extend<&'a T>" in ext['dname'] else x)
+        return UNIT()
+
+    # ------------------------------------------------------------------ slices
+    def sl(p):
+        if type(p) is not Ptr or p.meta is None or isinstance(p.meta, Dyn):
+            raise Unsupported('slice method on %r' % (p,))
+        return p
+
+    @reg('std::slice::<impl [T]>::first', 'std::slice::<impl [T]>::first_mut')
+    def slice_first(I, ext, a):
+        s = sl(a[0])
+        return some(Ptr(s.c, s.i)) if s.meta > 0 else NONE()
+
+    @reg('std::slice::<impl [T]>::last', 'std::slice::<impl [T]>::last_mut')
+    def slice_last(I, ext, a):
+        s = sl(a[0])
+        return some(Ptr(s.c, s.i + s.meta - 1)) if s.meta > 0 else NONE()
+
+    @reg('std::slice::<impl [T]>::get', 'std::slice::<impl [T]>::get_mut')
+    def slice_get(I, ext, a):
+        s = sl(a[0])
+        idx = a[1]
+        if type(idx) in (Agg, Enum):
+            try:
+                lo, hi = range_bounds(I, idx, ext, s.meta)
+            except RustPanic:
+                return NONE()
+            return some(Ptr(s.c, s.i + lo, hi - lo))
+        idx = conc(I, idx)
+        return some(Ptr(s.c, s.i + idx)) if 0 <= idx < s.meta else NONE()
+
+    @reg('std::slice::<impl [T]>::contains')
+    def slice_contains(I, ext, a):
+        s = sl(a[0])
+        et = targs(ext)[0]
+        x = a[1].c.f[a[1].i]
+        for j in range(s.meta):
+            if M.val_eq(I, et, s.c.f[s.i + j], x):
+                return True
+        return False
+
+    @reg('std::slice::<impl [T]>::starts_with', 'std::slice::<impl [T]>::ends_with')
+    def slice_starts_with(I, ext, a):
+        s, t = sl(a[0]), sl(a[1])
+        et = targs(ext)[0]
+        if t.meta > s.meta:
+            return False
+        off = 0 if ext['dname'].endswith('starts_with') else s.meta - t.meta
+        for j in range(t.meta):
+            if not M.val_eq(I, et, s.c.f[s.i + off + j], t.c.f[t.i + j]):
+                return False
+        return True
+
+    @reg('std::slice::<impl [T]>::reverse')
+    def slice_reverse(I, ext, a):
+        s = sl(a[0])
+        seg = s.c.f[s.i:s.i + s.meta]
+        seg.reverse()
+        s.c.f[s.i:s.i + s.meta] = seg
+        return UNIT()
+
+    @reg('std::slice::<impl [T]>::swap')
+    def slice_swap(I, ext, a):
+        s = sl(a[0])
+        i, j = conc(I, a[1]), conc(I, a[2])
+        if i >= s.meta or j >= s.meta:
+            raise RustPanic('index out of bounds in swap', 'bounds')
+        f = s.c.f
+        f[s.i + i], f[s.i + j] = f[s.i + j], f[s.i + i]
+        return UNIT()
+
+    @reg('std::slice::<impl [T]>::split_at', 'std::slice::<impl [T]>::split_at_mut')
+    def slice_split_at(I, ext, a):
+        s = sl(a[0])
+        mid = conc(I, a[1])
+        if mid > s.meta:
+            raise RustPanic('mid > len', 'bounds')
+        return Agg([Ptr(s.c, s.i, mid), Ptr(s.c, s.i + mid, s.meta - mid)])
+
+    @reg('std::slice::<impl [T]>::split_first', 'std::slice::<impl [T]>::split_last')
+    def slice_split_first(I, ext, a):
+        s = sl(a[0])
+        if s.meta == 0:
+            return NONE()
+        if ext['dname'].endswith('split_first'):
+            return some(Agg([Ptr(s.c, s.i), Ptr(s.c, s.i + 1, s.meta - 1)]))
+        return some(Agg([Ptr(s.c, s.i + s.meta - 1), Ptr(s.c, s.i, s.meta - 1)]))
+
+    @reg('std::slice::<impl [T]>::chunks', 'std::slice::<impl [T]>::windows', 'std::slice::<impl [T]>::chunks_exact')
+    def slice_chunks(I, ext, a):
+        s = sl(a[0])
+        k = conc(I, a[1])
+        if k == 0:
+            raise RustPanic('chunk/window size must be non-zero', 'explicit')
+        items = []
+        if ext['dname'].endswith('windows'):
+            for j in range(0, s.meta - k + 1):
+                items.append(Ptr(s.c, s.i + j, k))
+        else:
+            j = 0
+            while j < s.meta:
+                n = min(k, s.meta - j)
+                if n < k and ext['dname'].endswith('chunks_exact'):
+                    break
+                items.append(Ptr(s.c, s.i + j, n))
+                j += k
+        return ListIter(items)
+
+    @reg('std::slice::<impl [T]>::binary_search')
+    def slice_binary_search(I, ext, a):
+        s = sl(a[0])
+        x = a[1].c.f[a[1].i]
+        lo, hi = 0, s.meta
+        # any index of an equal element is allowed by the contract; this follows std's current algorithm loosely:
+        # report the position by linear scan over the (sorted) slice
+        for j in range(s.meta):
+            e = s.c.f[s.i + j]
+            if truth(I, e == x):
+                return ok(j)
+            if truth(I, e > x):
+                return err(j)
+        return err(s.meta)
+
+    def sort_with(I, s, less_eq, stable):
+        """insertion sort of the slice with a decided comparison cmp(a_ptr, b_ptr) -> -1/0/1"""
+        n = s.meta
+        items = [s.c.f[s.i + j] for j in range(n)]
+        order = []
+        for j in range(n):
+            pos = 0
+            for e in order:
+                c = less_eq(e, j)
+                if c < 0:
+                    pos += 1
+                elif c == 0:
+                    if stable or I.ctx.nondet_choice('sort-tie', 2) == 0:
+                        pos += 1
+                    else:
+                        break
+                else:
+                    break
+            order.insert(pos, j)
+        for j, src in enumerate(order):
+            s.c.f[s.i + j] = items[src]
+
+    def ord_of(I, v):
+        return v.v - 1
+
+    @reg('std::slice::<impl [T]>::sort', 'std::slice::<impl [T]>::sort_unstable')
+    def slice_sort(I, ext, a):
+        s = sl(a[0])
+        et = targs(ext)[0]
+        t = P.tys[et]
+        stable = ext['dname'].endswith('::sort')
+        if t['kind'] in ('int', 'bool', 'char'):
+            snapshot = [s.c.f[s.i + j] for j in range(s.meta)]
+            def cmp(e, j):
+                x, y = snapshot[e], snapshot[j]
+                if truth(I, x < y):
+                    return -1
+                return 0 if truth(I, x == y) else 1
+        else:
+            iid = M.find_inst('<%s as std::cmp::Ord>::cmp' % t['str'])
+            if iid is None:
+                raise Unsupported('sort of %s: no Ord::cmp instance in the dump' % t['str'])
+            snapshot = [Cell(s.c.f[s.i + j]) for j in range(s.meta)]
+            def cmp(e, j):
+                return ord_of(I, I.call_fn(iid, [Ptr(snapshot[e], 0), Ptr(snapshot[j], 0)]))
+        sort_with(I, s, cmp, stable)
+        return UNIT()
+
+    @reg('std::slice::<impl [T]>::sort_by', 'std::slice::<impl [T]>::sort_unstable_by')
+    def slice_sort_by(I, ext, a):
+        s = sl(a[0])
+        ftid = targs(ext)[-1]
+        snapshot = [Cell(s.c.f[s.i + j]) for j in range(s.meta)]
+        def cmp(e, j):
+            return ord_of(I, call_callable(I, ftid, a[1], [Ptr(snapshot[e], 0), Ptr(snapshot[j], 0)]))
+        sort_with(I, s, cmp, ext['dname'].endswith('::sort_by'))
+        return UNIT()
+
+    @reg('std::slice::<impl [T]>::concat')
+    def slice_concat(I, ext, a):
+        s = sl(a[0])
+        ts = targs(ext)
+        out = None
+        for j in range(s.meta):
+            part = s.c.f[s.i + j]
+            if type(part) is VecObj:
+                if out is None:
+                    out = VecObj(part.et)
+                clone = M.clone_fn(I, part.et)
+                for k in range(len(part.f)):
+                    out.f.append(clone(Ptr(part, k)))
+            elif type(part) is StringObj or type(part) is StrRef:
+                out = StringObj((out.s if out else '') + part.s)
+            else:
+                raise Unsupported('concat of %r' % (part,))
+        if out is None:
+            raise Unsupported('concat of an empty slice')
+        return out
+
+    @reg('std::slice::<impl [T]>::join')
+    def slice_join(I, ext, a):
+        s = sl(a[0])
+        sep = a[1]
+        parts = [s.c.f[s.i + j] for j in range(s.meta)]
+        if all(type(p) in (StringObj, StrRef) for p in parts) and type(sep) is StrRef:
+            return StringObj(sep.s.join(p.s for p in parts))
+        raise Unsupported('join on non-string slices')
+
+    # ------------------------------------------------------------------ HashMap / HashSet
+    def map_of(a0):
+        m = deref_to_value(a0)
+        if type(m) is not MapObj:
+            raise Unsupported('map method on %r' % (m,))
+        return m
+
+    def key_lookup(I, m, q):
+        if type(q) is StrRef:
+            for j, k in enumerate(m.kc.f):
+                if k.s == q.s:
+                    return j
+            return -1
+        return M.map_find(I, m, q.c.f[q.i])
+
+    def remove_at(I, m, j, drop_key=True, drop_val=True):
+        k = m.kc.f.pop(j)
+        v = m.f.pop(j)
+        return k, v
+
+    @reg('std::collections::HashMap::<K, V, S, A>::retain')
+    def map_retain(I, ext, a):
+        m = map_of(a[0])
+        ftid = targs(ext)[-1]
+        order = M.iteration_order(I, len(m.kc.f))
+        gone = []
+        for j in order:
+            if not truth(I, call_callable(I, ftid, a[1], [Ptr(m.kc, j), Ptr(m, j)])):
+                gone.append(j)
+        for j in sorted(gone, reverse=True):
+            I.drop_value_at(m.kc, j, m.kt)
+            I.drop_value_at(m, j, m.vt)
+            m.kc.f.pop(j)
+            m.f.pop(j)
+        return UNIT()
+
+    @reg('std::collections::HashSet::<T, S, A>::retain')
+    def set_retain(I, ext, a):
+        m = map_of(a[0])
+        ftid = targs(ext)[-1]
+        order = M.iteration_order(I, len(m.kc.f))
+        gone = []
+        for j in order:
+            if not truth(I, call_callable(I, ftid, a[1], [Ptr(m.kc, j)])):
+                gone.append(j)
+        for j in sorted(gone, reverse=True):
+            I.drop_value_at(m.kc, j, m.kt)
+            m.kc.f.pop(j)
+            m.f.pop(j)
+        return UNIT()
+
+    @reg('std::collections::HashMap::<K, V, S, A>::get_key_value')
+    def map_get_key_value(I, ext, a):
+        m = map_of(a[0])
+        j = key_lookup(I, m, a[1])
+        return some(Agg([Ptr(m.kc, j), Ptr(m, j)])) if j >= 0 else NONE()
+
+    @reg('std::collections::HashMap::<K, V, S, A>::remove_entry')
+    def map_remove_entry(I, ext, a):
+        m = map_of(a[0])
+        j = key_lookup(I, m, a[1])
+        if j < 0:
+            return NONE()
+        k, v = remove_at(I, m, j)
+        return some(Agg([k, v]))
+
+    @reg('std::collections::HashMap::<K, V, S, A>::drain')
+    def map_drain(I, ext, a):
+        m = map_of(a[0])
+        order = M.iteration_order(I, len(m.kc.f))
+        items = [Agg([m.kc.f[j], m.f[j]]) for j in order]
+        m.kc.f = []
+        m.f = []
+        tup = None
+        for t in P.tys.values() if isinstance(P.tys, dict) else P.tys:
+            if t and t.get('kind') == 'tuple' and t.get('fields') == [m.kt, m.vt]:
+                tup = t['id']
+                break
+        return ListIter(items, tup)
+
+    @reg('std::collections::HashSet::<T, S, A>::drain')
+    def set_drain(I, ext, a):
+        m = map_of(a[0])
+        order = M.iteration_order(I, len(m.kc.f))
+        items = [m.kc.f[j] for j in order]
+        m.kc.f = []
+        m.f = []
+        return ListIter(items, m.kt)
+
+    @reg('<std::collections::HashMap<K, V, S, A> as std::iter::Extend<(K, V)>>::extend')
+    def map_extend(I, ext, a):
+        m = map_of(a[0])
+        items = M.drain_iter(I, a[1], targs(ext)[-1])
+        for kv in items:
+            k, v = kv.f[0], kv.f[1]
+            j = M.map_find(I, m, k)
+            if j >= 0:
+                I.drop_value_at(m, j, m.vt)
+                m.f[j] = v
+                I.drop_value_at(Cell(k), 0, m.kt)
+            else:
+                m.kc.f.append(k)
+                m.f.append(v)
+        return UNIT()
+
+    @reg('<std::collections::HashMap<K, V, S> as std::iter::FromIterator<(K, V)>>::from_iter')
+    def map_from_iter(I, ext, a):
+        ts = targs(ext)
+        m = MapObj(ts[0], ts[1])
+        items = M.drain_iter(I, a[0], ts[-1])
+        for kv in items:
+            k, v = kv.f[0], kv.f[1]
+            j = M.map_find(I, m, k)
+            if j >= 0:
+                I.drop_value_at(m, j, m.vt)
+                m.f[j] = v
+                I.drop_value_at(Cell(k), 0, m.kt)
+            else:
+                m.kc.f.append(k)
+                m.f.append(v)
+        return m
+
+    @reg('<std::collections::HashSet<T, S, A> as std::iter::Extend<T>>::extend')
+    def set_extend(I, ext, a):
+        m = map_of(a[0])
+        items = M.drain_iter(I, a[1], targs(ext)[-1])
+        for x in items:
+            if M.map_find(I, m, x) >= 0:
+                I.drop_value_at(Cell(x), 0, m.kt)
+            else:
+                m.kc.f.append(x)
+                m.f.append(Agg([]))
+        return UNIT()
+
+    @reg("std::collections::hash_map::Entry::<'a, K, V, A>::and_modify")
+    def entry_and_modify(I, ext, a):
+        e = a[0]
+        m, j, key = e.data
+        if j >= 0:
+            call_callable(I, targs(ext)[-1], a[1], [Ptr(m, j)])
+        else:
+            I.drop_value_at(Cell(a[1]), 0, targs(ext)[-1])
+        return e
+
+    @reg('std::collections::HashSet::<T, S, A>::get')
+    def set_get(I, ext, a):
+        m = map_of(a[0])
+        j = key_lookup(I, m, a[1])
+        return some(Ptr(m.kc, j)) if j >= 0 else NONE()
+
+    @reg('std::collections::HashSet::<T, S, A>::take')
+    def set_take(I, ext, a):
+        m = map_of(a[0])
+        j = key_lookup(I, m, a[1])
+        if j < 0:
+            return NONE()
+        k, _ = remove_at(I, m, j)
+        return some(k)
+
+    @reg('std::collections::HashSet::<T, S, A>::replace')
+    def set_replace(I, ext, a):
+        m = map_of(a[0])
+        j = M.map_find(I, m, a[1])
+        if j < 0:
+            m.kc.f.append(a[1])
+            m.f.append(Agg([]))
+            return NONE()
+        old = m.kc.f[j]
+        m.kc.f[j] = a[1]
+        return some(old)
+
+    def set_op(which):
+        def f(I, ext, a):
+            x, y = map_of(a[0]), map_of(a[1])
+            ox = M.iteration_order(I, len(x.kc.f))
+            inx = lambda k: M.map_find(I, x, k) >= 0
+            iny = lambda k: M.map_find(I, y, k) >= 0
+            items = []
+            if which == 'difference':
+                items = [Ptr(x.kc, j) for j in ox if not iny(x.kc.f[j])]
+            elif which == 'intersection':
+                items = [Ptr(x.kc, j) for j in ox if iny(x.kc.f[j])]
+            else:
+                oy = M.iteration_order(I, len(y.kc.f))
+                if which == 'union':
+                    items = [Ptr(x.kc, j) for j in ox] + [Ptr(y.kc, j) for j in oy if not inx(y.kc.f[j])]
+                else:
+                    items = [Ptr(x.kc, j) for j in ox if not iny(x.kc.f[j])] + [Ptr(y.kc, j) for j in oy if not inx(y.kc.f[j])]
+            return ListIter(items)
+        return f
+    for nm in ('difference', 'intersection', 'union', 'symmetric_difference'):
+        reg('std::collections::HashSet::<T, S, A>::' + nm)(set_op(nm))
+
+    @reg('std::collections::HashSet::<T, S, A>::is_subset', 'std::collections::HashSet::<T, S, A>::is_superset', 'std::collections::HashSet::<T, S, A>::is_disjoint')
+    def set_rel(I, ext, a):
+        x, y = map_of(a[0]), map_of(a[1])
+        which = ext['dname'].rsplit('::', 1)[1]
+        if which == 'is_superset':
+            x, y = y, x
+        if which == 'is_disjoint':
+            return not any(M.map_find(I, y, k) >= 0 for k in x.kc.f)
+        return all(M.map_find(I, y, k) >= 0 for k in x.kc.f)
+
+    # ------------------------------------------------------------------ atomics
+    def at(a0):
+        o = deref_to_value(a0)
+        if type(o) is not AtomicObj:
+            raise Unsupported('atomic op on %r' % (o,))
+        return o
+
+    def int_info(ext):
+        m = re.search(r'Atomic(?:::)?<(\w+)>', ext['dname'])
+        nm = m.group(1) if m else 'u64'
+        if nm == 'bool':
+            return None
+        bits = 64 if nm in ('usize', 'isize') else int(nm[1:])
+        return bits, nm[0] == 'i'
+
+    @reg_re(r'^std::sync::atomic::Atomic(::)?<.*>::fetch_(xor|nand)$')
+    def atomic_fetch_xor(I, ext, a):
+        I.sched_point(('atomic', None))
+        o = at(a[0])
+        old = o.f[0]
+        info = int_info(ext)
+        if info is None:
+            x, y = bool(conc(I, old)), bool(conc(I, a[1]))
+            o.f[0] = (x != y) if ext['dname'].endswith('xor') else not (x and y)
+            return old
+        bits, signed = info
+        x, y = conc(I, old) % (1 << bits), conc(I, a[1]) % (1 << bits)
+        r = (x ^ y) if ext['dname'].endswith('xor') else (~(x & y)) % (1 << bits)
+        if signed and r >= 1 << (bits - 1):
+            r -= 1 << bits
+        o.f[0] = r
+        return old
+
+    @reg_re(r'^std::sync::atomic::Atomic(::)?<.*>::fetch_update$')
+    def atomic_fetch_update(I, ext, a):
+        o = at(a[0])
+        ftid = targs(ext)[-1]
+        I.sched_point(('atomic', None))
+        while True:
+            old = o.f[0]
+            r = call_callable(I, ftid, a[3], [old])
+            if r.v == 0:
+                return err(old)
+            I.sched_point(('atomic', None))
+            same = o.f[0] is old or (not is_sym(o.f[0]) and not is_sym(old) and o.f[0] == old) or (is_sym(o.f[0]) or is_sym(old)) and truth(I, o.f[0] == old)
+            if same:
+                o.f[0] = r.f[0]
+                return ok(old)
+
+    @reg_re(r'^std::sync::atomic::Atomic(::)?<.*>::(get_mut|as_ptr)$')
+    def atomic_get_mut(I, ext, a):
+        return Ptr(at(a[0]), 0)
+
+    @reg_re(r'^std::sync::atomic::Atomic(::)?<.*>::into_inner$')
+    def atomic_into_inner(I, ext, a):
+        return a[0].f[0]
+
+    # ------------------------------------------------------------------ locks, Arc, cells
+    @reg('std::sync::Mutex::<T>::into_inner', 'std::sync::RwLock::<T>::into_inner')
+    def lock_into_inner(I, ext, a):
+        lk = a[0]
+        if lk.poisoned:
+            return err(Agg([lk.f[0]]))
+        return ok(lk.f[0])
+
+    @reg('std::sync::Mutex::<T>::get_mut', 'std::sync::RwLock::<T>::get_mut')
+    def lock_get_mut(I, ext, a):
+        lk = deref_to_value(a[0])
+        p = Ptr(lk, 0, a[0].meta)
+        if lk.poisoned:
+            return err(Agg([p]))
+        return ok(p)
+
+    @reg('std::sync::Mutex::<T>::is_poisoned', 'std::sync::RwLock::<T>::is_poisoned')
+    def lock_is_poisoned(I, ext, a):
+        return deref_to_value(a[0]).poisoned
+
+    @reg('std::sync::Mutex::<T>::clear_poison', 'std::sync::RwLock::<T>::clear_poison')
+    def lock_clear_poison(I, ext, a):
+        deref_to_value(a[0]).poisoned = False
+        return UNIT()
+
+    def try_acquire(I, a, mode):
+        lkp = a[0]
+        lk = deref_to_value(lkp)
+        if type(lk) is not LockObj:
+            raise Unsupported('lock operation on %r' % (lk,))
+        I.sched_point(('lock', lk, mode))
+        free = lk.writer is None if mode == 'read' else (lk.writer is None and not lk.readers)
+        if not free:
+            return err(Enum(1, []))
+        if mode == 'read':
+            lk.readers.append(I.thread_id)
+        else:
+            lk.writer = I.thread_id
+        g = Guard(lk, mode, I.panicking, lkp.meta)
+        if lk.poisoned:
+            return err(Enum(0, [Agg([g])]))
+        return ok(g)
+
+    @reg('std::sync::RwLock::<T>::try_read')
+    def rw_try_read(I, ext, a):
+        return try_acquire(I, a, 'read')
+
+    @reg('std::sync::RwLock::<T>::try_write')
+    def rw_try_write(I, ext, a):
+        return try_acquire(I, a, 'write')
+
+    @reg('std::sync::Arc::<T, A>::weak_count')
+    def arc_weak_count(I, ext, a):
+        return deref_to_value(a[0]).inner.weak
+
+    @reg('std::sync::Arc::<T, A>::get_mut')
+    def arc_get_mut(I, ext, a):
+        r = deref_to_value(a[0])
+        if r.inner.strong == 1 and r.inner.weak == 0:
+            return some(Ptr(r.inner, 0, r.meta))
+        return NONE()
+
+    @reg('std::sync::Arc::<T, A>::try_unwrap', 'std::sync::Arc::<T, A>::into_inner')
+    def arc_try_unwrap(I, ext, a):
+        r = a[0]
+        into = ext['dname'].endswith('into_inner')
+        if r.inner.strong == 1:
+            r.inner.strong = 0
+            r.inner.dropped = True
+            v = r.inner.f[0]
+            return some(v) if into else ok(v)
+        if into:
+            r.inner.strong -= 1
+            return NONE()
+        return err(r)
+
+    @reg('std::sync::Arc::<T, A>::make_mut')
+    def arc_make_mut(I, ext, a):
+        cellp = a[0]
+        r = cellp.c.f[cellp.i]
+        if r.inner.strong == 1 and r.inner.weak == 0:
+            return Ptr(r.inner, 0, r.meta)
+        clone = M.clone_fn(I, r.inner.ty)
+        nv = clone(Ptr(r.inner, 0))
+        r.inner.strong -= 1
+        if r.inner.strong == 0:
+            raise Unsupported('Arc::make_mut with only weak references left')
+        nr = ArcRef(ArcInner(nv, r.inner.ty))
+        cellp.c.f[cellp.i] = nr
+        return Ptr(nr.inner, 0)
+
+    @reg('std::cell::Cell::<T>::new')
+    def cell_new(I, ext, a):
+        return AtomicObj(a[0])
+
+    @reg('std::cell::Cell::<T>::get')
+    def cell_get(I, ext, a):
+        return deref_to_value(a[0]).f[0]
+
+    @reg('std::cell::Cell::<T>::set')
+    def cell_set(I, ext, a):
+        o = deref_to_value(a[0])
+        o.f[0] = a[1]
+        return UNIT()
+
+    @reg('std::cell::Cell::<T>::replace')
+    def cell_replace(I, ext, a):
+        o = deref_to_value(a[0])
+        old = o.f[0]
+        o.f[0] = a[1]
+        return old
+
+    @reg('std::cell::Cell::<T>::take')
+    def cell_take(I, ext, a):
+        o = deref_to_value(a[0])
+        old = o.f[0]
+        o.f[0] = M.default_value(I, targs(ext)[0])
+        return old
+
+    @reg('std::cell::Cell::<T>::into_inner')
+    def cell_into_inner(I, ext, a):
+        return a[0].f[0]
+
+    # ------------------------------------------------------------------ strings
+    def sval(x):
+        v = deref_to_value(x) if type(x) is Ptr else x
+        if type(v) in (StringObj, StrRef):
+            return v.s
+        raise Unsupported('string method on %r' % (v,))
+
+    @reg('std::string::String::push')
+    def string_push(I, ext, a):
+        s = deref_to_value(a[0])
+        s.s = s.s + chr(conc(I, a[1]))
+        return UNIT()
+
+    @reg('std::string::String::clear')
+    def string_clear(I, ext, a):
+        deref_to_value(a[0]).s = ''
+        return UNIT()
+
+    @reg('<std::string::String as std::cmp::PartialEq<&str>>::eq', '<std::string::String as std::cmp::PartialEq<str>>::eq',
+         '<str as std::cmp::PartialEq<std::string::String>>::eq', "<&'a str as std::cmp::PartialEq<std::string::String>>::eq")
+    def string_eq_str(I, ext, a):
+        x = sval(a[0])
+        y = a[1]
+        if type(y) is Ptr and type(y.c.f[y.i]) in (StrRef, StringObj):
+            y = y.c.f[y.i]
+        return x == sval(y)
+
+    @reg('std::str::<impl str>::starts_with', 'std::str::<impl str>::ends_with', 'std::str::<impl str>::contains')
+    def str_pred(I, ext, a):
+        s = sval(a[0])
+        pat = a[1]
+        if type(pat) is StrRef or type(pat) is StringObj:
+            p = pat.s
+        elif isinstance(pat, int):
+            p = chr(pat)
+        elif type(pat) is Ptr and type(pat.c.f[pat.i]) in (StrRef, StringObj):
+            p = pat.c.f[pat.i].s
+        else:
+            raise Unsupported('string pattern %r' % (pat,))
+        which = ext['dname'].rsplit('::', 1)[1]
+        return s.startswith(p) if which == 'starts_with' else s.endswith(p) if which == 'ends_with' else (p in s)
+
+    @reg('std::str::traits::<impl std::cmp::Ord for str>::cmp', 'core::str::traits::<impl std::cmp::PartialOrd for str>::partial_cmp')
+    def str_cmp(I, ext, a):
+        x, y = sval(a[0]).encode(), sval(a[1]).encode()
+        o = I.ordering(-1 if x < y else 0 if x == y else 1)
+        return some(o) if ext['dname'].endswith('partial_cmp') else o
+
+    @reg('std::string::String::as_bytes', 'std::str::<impl str>::as_bytes')
+    def str_as_bytes(I, ext, a):
+        b = list(sval(a[0]).encode())
+        return Ptr(Cell(None, 'bytes') if False else _bytes_cell(b), 0, len(b))
+
+    def _bytes_cell(b):
+        c = Cell(None)
+        c.f = b
+        return c
+
+    @reg('std::str::<impl str>::bytes')
+    def str_bytes(I, ext, a):
+        return ListIter(list(sval(a[0]).encode()))
+
+    @reg('std::str::<impl str>::chars')
+    def str_chars(I, ext, a):
+        return ListIter([ord(ch) for ch in sval(a[0])])
+
+    @reg('std::str::<impl str>::to_lowercase', 'std::str::<impl str>::to_uppercase')
+    def str_case(I, ext, a):
+        s = sval(a[0])
+        return StringObj(s.lower() if ext['dname'].endswith('lowercase') else s.upper())
+
+    @reg('std::cell::RefCell::<T>::try_borrow')
+    def refcell_try_borrow(I, ext, a):
+        c = deref_to_value(a[0])
+        if c.borrow < 0:
+            return err(Agg([]))
+        c.borrow += 1
+        return ok(BorrowRef(c, False))
+
+    @reg('std::cell::RefCell::<T>::try_borrow_mut')
+    def refcell_try_borrow_mut(I, ext, a):
+        c = deref_to_value(a[0])
+        if c.borrow != 0:
+            return err(Agg([]))
+        c.borrow = -1
+        return ok(BorrowRef(c, True))
+
+    @reg('std::cell::RefCell::<T>::into_inner')
+    def refcell_into_inner(I, ext, a):
+        return a[0].f[0]
+
+    @reg('std::cell::RefCell::<T>::get_mut')
+    def refcell_get_mut(I, ext, a):
+        return Ptr(deref_to_value(a[0]), 0)
+
+    @reg('std::cell::RefCell::<T>::replace')
+    def refcell_replace(I, ext, a):
+        c = deref_to_value(a[0])
+        if c.borrow != 0:
+            raise RustPanic('already borrowed', 'borrow')
+        old = c.f[0]
+        c.f[0] = a[1]
+        return old
+
+    # ---- iterators of std containers override fold & co: generic versions driven by the modelled `next`
+    CONT_ITERS = (r"std::collections::hash_map::\w+<.*>|std::collections::hash_set::\w+<.*>|std::vec::IntoIter<T, A>|std::vec::Drain<.*>|"
+                  r"enum_map::iter::\w+<.*>|lru::Iter<.*>|std::slice::(Chunks|Windows|ChunksExact)<'a, T>|std::str::(Bytes|Chars)<'.*>")
+
+    @reg_re(r"^<(" + CONT_ITERS + r") as std::iter::Iterator>::(fold|for_each|count|last|nth|find|any|all|position|find_map|min|max)$")
+    def cont_iter_method(I, ext, a):
+        dn = ext['dname']
+        meth = dn.rsplit('::', 1)[1]
+        nxt = M.find({'dname': dn.rsplit('::', 1)[0] + '::next'})
+        if nxt is None:
+            raise Unsupported('no next model for ' + dn)
+        byref = meth in ('find', 'any', 'all', 'position', 'find_map', 'nth')
+        cellp = a[0] if byref else Ptr(Cell(a[0], 'iter'), 0)
+        def step():
+            r = nxt(I, ext, [cellp])
+            return r.f[0] if r.v == 1 else None
+        ts = targs(ext)
+        if meth == 'count':
+            n = 0
+            while step() is not None:
+                n += 1
+            return n
+        if meth == 'last':
+            last = None
+            while True:
+                x = step()
+                if x is None:
+                    return some(last) if last is not None else NONE()
+                last = x
+        if meth == 'nth':
+            n = conc(I, a[1])
+            x = None
+            for _ in range(n + 1):
+                x = step()
+                if x is None:
+                    return NONE()
+            return some(x)
+        ftid = ts[-1]
+        f = a[-1]
+        if meth == 'fold':
+            acc = a[1]
+            while True:
+                x = step()
+                if x is None:
+                    return acc
+                acc = call_callable(I, ftid, f, [acc, x])
+        if meth == 'for_each':
+            while True:
+                x = step()
+                if x is None:
+                    return UNIT()
+                call_callable(I, ftid, f, [x])
+        idx = 0
+        while True:
+            x = step()
+            if x is None:
+                break
+            if meth == 'find':
+                if truth(I, call_callable(I, ftid, f, [Ptr(Cell(x, 'item'), 0)])):
+                    return some(x)
+            elif meth == 'find_map':
+                r = call_callable(I, ftid, f, [x])
+                if r.v == 1:
+                    return r
+            else:
+                t = truth(I, call_callable(I, ftid, f, [x]))
+                if meth == 'position' and t:
+                    return some(idx)
+                if meth == 'any' and t:
+                    return True
+                if meth == 'all' and not t:
+                    return False
+            idx += 1
+        return False if meth == 'any' else True if meth == 'all' else NONE()
+
+    def pat_str(pat):
+        if type(pat) in (StrRef, StringObj):
+            return pat.s
+        if isinstance(pat, int) and not isinstance(pat, bool):
+            return chr(pat)
+        if type(pat) is Ptr and type(pat.c.f[pat.i]) in (StrRef, StringObj):
+            return pat.c.f[pat.i].s
+        raise Unsupported('string pattern %r' % (pat,))
+
+    @reg('std::str::<impl str>::find', 'std::str::<impl str>::rfind')
+    def str_find(I, ext, a):
+        s, p = sval(a[0]), pat_str(a[1])
+        j = s.find(p) if ext['dname'].endswith('::find') else s.rfind(p)
+        return some(len(s[:j].encode())) if j >= 0 else NONE()
+
+    @reg('std::str::<impl str>::split')
+    def str_split(I, ext, a):
+        s, p = sval(a[0]), pat_str(a[1])
+        return ListIter([StrRef(x) for x in s.split(p)])
+
+    @reg_re(r"^<std::str::Split<'a, P> as std::iter::Iterator>::next$")
+    def str_split_next(I, ext, a):
+        it = deref_to_value(a[0])
+        return some(it.items.pop(0)) if it.items else NONE()
+    M.drops['std::str::Split'] = drop_list_iter
+
+    @reg('std::str::<impl str>::replace')
+    def str_replace(I, ext, a):
+        return StringObj(sval(a[0]).replace(pat_str(a[1]), sval(a[2])))
+
+    @reg('std::str::<impl str>::parse')
+    def str_parse(I, ext, a):
+        t = P.tys[targs(ext)[0]]
+        s = sval(a[0])
+        if t['kind'] == 'int':
+            body = s[1:] if s[:1] in '+-' else s
+            if body.isascii() and body.isdigit() and (s[:1] != '-' or t['signed']):
+                v = int(s)
+                if t['lo'] <= v <= t['hi']:
+                    return ok(v)
+            return err(OpaqueObj('parse-int-error'))
+        if t['kind'] == 'bool':
+            return ok(s == 'true') if s in ('true', 'false') else err(OpaqueObj('parse-bool-error'))
+        raise Unsupported('str::parse::<%s>' % t['str'])
+
+    @reg_re(r"^<std::string::String as std::ops::Index<I>>::index$|^std::str::traits::<impl std::ops::Index<I> for str>::index$")
+    def string_index(I, ext, a):
+        s = sval(a[0])
+        b = s.encode()
+        lo, hi = range_bounds(I, a[1], ext, len(b))
+        try:
+            return StrRef(b[lo:hi].decode())
+        except UnicodeDecodeError:
+            raise RustPanic('byte index is not a char boundary', 'bounds')
+
+    # ---- Rc: single-threaded Arc
+    @reg('std::rc::Rc::<T>::new')
+    def rc_new(I, ext, a):
+        return ArcRef(ArcInner(a[0], targs(ext)[0]))
+
+    @reg('<std::rc::Rc<T, A> as std::clone::Clone>::clone')
+    def rc_clone(I, ext, a):
+        r = deref_to_value(a[0])
+        r.inner.strong += 1
+        return ArcRef(r.inner, r.meta)
+
+    @reg('<std::rc::Rc<T, A> as std::ops::Deref>::deref', '<std::rc::Rc<T, A> as std::convert::AsRef<T>>::as_ref')
+    def rc_deref(I, ext, a):
+        r = deref_to_value(a[0])
+        return Ptr(r.inner, 0, r.meta)
+
+    @reg('std::rc::Rc::<T, A>::strong_count')
+    def rc_strong(I, ext, a):
+        return deref_to_value(a[0]).inner.strong
+
+    @reg('std::rc::Rc::<T, A>::ptr_eq')
+    def rc_ptr_eq(I, ext, a):
+        return deref_to_value(a[0]).inner is deref_to_value(a[1]).inner
+    if 'std::sync::Arc' in M.drops:
+        M.drops['std::rc::Rc'] = M.drops['std::sync::Arc']
+
+    # ------------------------------------------------------------------ Duration
+    NS = 1000000000
+
+    @reg_re(r'^std::time::Duration::(from_nanos|from_micros|from_millis|from_secs)$')
+    def duration_from(I, ext, a):
+        mul = {'from_nanos': 1, 'from_micros': 1000, 'from_millis': 1000000, 'from_secs': NS}[ext['dname'].rsplit('::', 1)[1]]
+        return OpaqueObj('duration', a[0] * mul)
+
+    @reg_re(r'^std::time::Duration::(as_nanos|as_micros|as_millis|as_secs|subsec_nanos|subsec_micros|subsec_millis)$')
+    def duration_as(I, ext, a):
+        d = deref_to_value(a[0]) if type(a[0]) is Ptr else a[0]
+        ns = d.data
+        which = ext['dname'].rsplit('::', 1)[1]
+        if is_sym(ns):
+            ns = conc(I, ns)
+        if which.startswith('as_'):
+            return ns // {'as_nanos': 1, 'as_micros': 1000, 'as_millis': 1000000, 'as_secs': NS}[which]
+        return (ns % NS) // {'subsec_nanos': 1, 'subsec_micros': 1000, 'subsec_millis': 1000000}[which]
+
+    # ------------------------------------------------------------------ float intrinsics (concrete IEEE doubles)
+    def fl(I, x):
+        if type(x) is SymF:
+            x = I.symf_concretize(x)
+        return x
+
+    def f1(name, fn):
+        @reg('intrinsic:' + name)
+        def g(I, ext, a):
+            x = fl(I, a[0])
+            try:
+                return fn(x)
+            except (ValueError, OverflowError):
+                return float('nan')
+        return g
+
+    f1('truncf64', lambda x: math.copysign(float(math.trunc(x)), x) if math.isfinite(x) else x)
+    f1('fabs', lambda x: abs(x))
+    f1('fabsf64', lambda x: abs(x))
+    f1('sqrtf64', lambda x: math.sqrt(x) if x >= 0 else float('nan'))
+    # exp / ln / pow go through the platform libm natively; CPython calls the same libm
+    f1('expf64', lambda x: math.exp(x))
+    f1('logf64', lambda x: math.log(x) if x > 0 else (float('-inf') if x == 0 else float('nan')))
+    f1('log2f64', lambda x: math.log2(x) if x > 0 else (float('-inf') if x == 0 else float('nan')))
+    f1('log10f64', lambda x: math.log10(x) if x > 0 else (float('-inf') if x == 0 else float('nan')))
+
+    @reg('intrinsic:copysignf64')
+    def i_copysign(I, ext, a):
+        return math.copysign(fl(I, a[0]), fl(I, a[1]))
+
+    @reg('intrinsic:powf64')
+    def i_powf(I, ext, a):
+        try:
+            return math.pow(fl(I, a[0]), fl(I, a[1]))
+        except (ValueError, OverflowError):
+            return float('nan')
+
+    @reg('intrinsic:powif64')
+    def i_powi(I, ext, a):
+        x, n = fl(I, a[0]), conc(I, a[1])
+        # repeated multiplication like compiler-rt's __powidf2
+        r = 1.0
+        neg = n < 0
+        n = abs(n)
+        b = x
+        while True:
+            if n & 1:
+                r *= b
+            n >>= 1
+            if n == 0:
+                break
+            b *= b
+        return 1.0 / r if neg else r
+
+    @reg('intrinsic:fmaf64')
+    def i_fma(I, ext, a):
+        from fractions import Fraction
+        x, y, z = fl(I, a[0]), fl(I, a[1]), fl(I, a[2])
+        if not (math.isfinite(x) and math.isfinite(y) and math.isfinite(z)):
+            return x * y + z
+        return float(Fraction(x) * Fraction(y) + Fraction(z))
+
+    @reg('intrinsic:minimum_number_nsz_f64', 'intrinsic:minnumf64')
+    def i_fmin(I, ext, a):
+        x, y = fl(I, a[0]), fl(I, a[1])
+        if x != x:
+            return y
+        if y != y:
+            return x
+        return x if x < y else y
+
+    @reg('intrinsic:maximum_number_nsz_f64', 'intrinsic:maxnumf64')
+    def i_fmax(I, ext, a):
+        x, y = fl(I, a[0]), fl(I, a[1])
+        if x != x:
+            return y
+        if y != y:
+            return x
+        return x if x > y else y
+
+    @reg('intrinsic:cold_path', 'intrinsic:assert_inhabited', 'intrinsic:assert_zero_valid', 'intrinsic:assert_mem_uninitialized_valid')
+    def i_nop(I, ext, a):
+        return UNIT()
+
+    @reg('intrinsic:is_val_statically_known')
+    def i_not_known(I, ext, a):
+        return False
+
+    @reg('intrinsic:likely', 'intrinsic:unlikely', 'intrinsic:black_box')
+    def i_ident(I, ext, a):
+        return a[0]
+
+
+_old6_register_all = register_all
+
+
+def register_all(M):  # noqa: F811
+    _old6_register_all(M)
+    register_batch7(M)
